@@ -419,10 +419,11 @@ type CacheState struct {
 	Data     map[fat2.PTicker][]uint64
 	Averages map[fat2.PTicker]uint64
 	Height   uint32
+	Full     NodeState // the whole in-memory state (see clone.go)
 }
 
 func (d *Daemon) CacheSnapshot() CacheState {
-	cs := CacheState{Height: d.Node.LastAveragesHeight}
+	cs := CacheState{Height: d.Node.LastAveragesHeight, Full: d.Snapshot()}
 	if d.Node.LastAveragesData != nil {
 		cs.Data = map[fat2.PTicker][]uint64{}
 		for k, v := range d.Node.LastAveragesData {
@@ -439,6 +440,7 @@ func (d *Daemon) CacheSnapshot() CacheState {
 }
 
 func (d *Daemon) CacheRestore(cs CacheState) {
+	d.Restore(cs.Full)
 	d.Node.LastAveragesHeight = cs.Height
 	d.Node.LastAveragesData, d.Node.LastAverages = nil, nil
 	if cs.Data != nil {
